@@ -23,6 +23,7 @@ import (
 
 	abci "github.com/tendermint/tendermint/abci/types"
 	"github.com/tendermint/tendermint/crypto/ed25519"
+	"github.com/tendermint/tendermint/crypto/secp256k1"
 	"github.com/tendermint/tendermint/libs/log"
 	tmtypes "github.com/tendermint/tendermint/types"
 	dbm "github.com/tendermint/tm-db"
@@ -34,6 +35,7 @@ import (
 	"github.com/pokt-network/posmint/x/auth"
 	authExported "github.com/pokt-network/posmint/x/auth/exported"
 	authTypes "github.com/pokt-network/posmint/x/auth/types"
+	"github.com/pokt-network/posmint/x/gov"
 	govTypes "github.com/pokt-network/posmint/x/gov/types"
 	"github.com/pokt-network/posmint/x/pos"
 	posTypes "github.com/pokt-network/posmint/x/pos/types"
@@ -50,8 +52,9 @@ type key struct {
 	subs []key // non-empty: an N-of-N multisignature key over these keys
 }
 
-// sign produces the signature of this key over msg; wrong >= 0 lets sub-key `wrong` be replaced by a stranger
-func (k key) sign(msg []byte, wrong int) []byte {
+// sign produces the signature of this key over msg; wrong >= 0 damages position `wrong` of a multisignature: mode 0 another
+// key signs there, 1 the slot is left empty, 2 every slot is left empty, 3 the slot's signature carries one more byte
+func (k key) sign(msg []byte, wrong, mode int) []byte {
 	if len(k.subs) == 0 {
 		sig, _ := k.priv.Sign(msg)
 		return sig
@@ -59,10 +62,17 @@ func (k key) sign(msg []byte, wrong int) []byte {
 	ms := crypto.MultiSignature{}
 	for i, s := range k.subs {
 		signer := s
-		if i == wrong {
+		if i == wrong && mode == 0 {
 			signer = k.subs[(i+1)%len(k.subs)]
 		}
-		ms.Sigs = append(ms.Sigs, signer.sign(msg, -1))
+		sg := signer.sign(msg, -1, 0)
+		if i == wrong && mode == 3 {
+			sg = append(sg, 0x01)
+		}
+		if (i == wrong && mode == 1) || (wrong >= 0 && mode == 2) {
+			sg = nil
+		}
+		ms.Sigs = append(ms.Sigs, sg)
 	}
 	return ms.Marshal()
 }
@@ -87,7 +97,10 @@ func mkKeys(n int, salt uint64) []key {
 	ks := make([]key, n)
 	for i := range ks {
 		p := ed25519.GenPrivKeyFromSecret([]byte(fmt.Sprintf("verif-key-%d-%d", salt, i)))
-		priv := crypto.Ed25519PrivateKey(p)
+		var priv crypto.PrivateKey = crypto.Ed25519PrivateKey(p)
+		if i%4 == 3 { // the other key type
+			priv = crypto.Secp256k1PrivateKey(secp256k1.GenPrivKeySecp256k1([]byte(fmt.Sprintf("verif-key-%d-%d", salt, i))))
+		}
 		ks[i] = key{priv: priv, pub: priv.PublicKey(), addr: sdk.Address(priv.PublicKey().Address())}
 	}
 	sort.Slice(ks, func(i, j int) bool { return string(ks[i].addr) < string(ks[j].addr) })
@@ -107,6 +120,7 @@ type request struct {
 	hdr  abci.Header
 	resA string // consensus-relevant response of instance A
 	acl  bool   // an accepted change of gov/acl
+	msg  sdk.Msg // HM: a message handed to the governance handler directly
 }
 
 type hist struct {
@@ -129,6 +143,8 @@ type hist struct {
 	// hand-overs proposed by the latest gov/acl change: (parameter, previous owner, next owner)
 	handover [][3]string
 	forced   []txSpec
+	db       dbm.DB
+	stranded *key // a jailed, staked validator whose stake a parameter change has just put below the minimum
 	// genesis accounts whose recorded public key is somebody else's (address -> that key)
 	foreignKey map[string]key
 	// the node's transaction index (filled at Commit) and the committed transactions that may be replayed
@@ -338,16 +354,25 @@ func try(f func()) (panicked bool) {
 
 // ---------------------------------------------------------------- transactions
 type txSpec struct {
-	msg      sdk.Msg
-	spec     string // model encoding of the message
-	signer   key    // who signs
-	attached *key   // key carried in the signature (nil: none)
-	fee      int64
-	memo     string
-	mutate   int // 0 none, 1 fee, 2 memo, 3 entropy (after signing)
-	sigEmpty bool
-	feeOther int64 // additional fee coins in the second denomination "aaa" (the model ignores them)
-	wrongSub int   // multisig: index of the sub-signature made by another key (-1: none)
+	msg       sdk.Msg
+	spec      string // model encoding of the message
+	signer    key    // who signs
+	attached  *key   // key carried in the signature (nil: none)
+	fee       int64
+	memo      string
+	mutate    int // 0 none, 1 fee, 2 memo, 3 entropy (after signing)
+	sigEmpty  bool
+	feeOther  int64 // additional fee coins in the second denomination "aaa" (the model ignores them)
+	wrongSub  int   // multisig: index of the damaged sub-signature (-1: none)
+	subMode   int   // how it is damaged (see key.sign)
+	sigDamage int   // a single key's signature after signing: 1 one byte appended, 2 last byte dropped, 3 one bit flipped
+}
+
+func zzzCoins(n int64) sdk.Coins {
+	if n == 0 {
+		return nil
+	}
+	return sdk.Coins{sdk.NewCoin("zzz", sdk.NewInt(n))}
 }
 
 func feeCoins(upokt, other int64) sdk.Coins {
@@ -368,9 +393,19 @@ func (h *hist) buildTx(t txSpec) ([]byte, string) {
 	if err != nil {
 		panic(err)
 	}
-	sig := t.signer.sign(signBytes, t.wrongSub)
+	sig := t.signer.sign(signBytes, t.wrongSub, t.subMode)
+	switch t.sigDamage {
+	case 1:
+		sig = append(sig, byte(h.r.Intn(256)))
+	case 2:
+		sig = sig[:len(sig)-1]
+	case 3:
+		sig[h.r.Intn(len(sig))] ^= byte(1 << uint(h.r.Intn(8)))
+	}
 	memo := t.memo
 	switch t.mutate {
+	case 4: // white space only: the signed memo and the carried memo differ in nothing a reader would notice
+		memo = []string{memo + " ", " " + memo, memo + "\n", memo + "\t ", "\u00a0" + memo}[h.r.Intn(5)]
 	case 1:
 		fee = feeCoins(t.fee+1, t.feeOther)
 		t.fee = t.fee + 1
@@ -413,11 +448,52 @@ func (h *hist) buildTx(t txSpec) ([]byte, string) {
 		}
 	}
 	by := hx(t.signer.addr)
-	if len(t.signer.subs) > 0 && t.wrongSub >= 0 {
-		by = "00" // one position was signed by another key: nobody's valid signature
+	if (len(t.signer.subs) > 0 && t.wrongSub >= 0) || t.sigDamage != 0 {
+		by = "00" // one position was signed by another key, or the signature was damaged: nobody's valid signature
 	}
 	op := fmt.Sprintf("TX %s fee=%d memo=%d att=%s multi=%d by=%s mut=%d sigempty=%d dup=0", t.spec, t.fee, len(memo), att, multi, by, mut, se)
 	return bz, op
+}
+
+// nearMiss returns the address itself, a stranger's, or one that differs from it in the case of one ASCII letter or in one
+// byte above 0x7f (nil when the address offers no such byte)
+func nearMiss(r *rng.R, a sdk.Address) sdk.Address {
+	b := append(sdk.Address{}, a...)
+	if len(b) == 0 {
+		return nil
+	}
+	switch r.Intn(5) {
+	case 0:
+		return b
+	case 1:
+		b[r.Intn(len(b))] ^= 0x01
+		return b
+	case 2, 3:
+		var at []int
+		for i, c := range b {
+			if (c >= 'a' && c <= 'z') || (c >= 'A' && c <= 'Z') {
+				at = append(at, i)
+			}
+		}
+		if len(at) == 0 {
+			return nil
+		}
+		b[at[r.Intn(len(at))]] ^= 0x20
+		return b
+	default:
+		var at []int
+		for i, c := range b {
+			if c >= 0x80 {
+				at = append(at, i)
+			}
+		}
+		if len(at) == 0 {
+			return nil
+		}
+		i := at[r.Intn(len(at))]
+		b[i] = 0x80 + (b[i]+1+byte(r.Intn(0x7e)))%0x80
+		return b
+	}
 }
 
 func (h *hist) pick() key { return h.keys[h.r.Intn(len(h.keys))] }
@@ -485,6 +561,25 @@ func (h *hist) genTx(pp posTypes.Params, govOwner map[string]key, daoOwner key, 
 				ft.spec = fmt.Sprintf("stake:%s:%s:%d", hx(c.pub.RawBytes()), hx(c.addr), amt)
 			}
 			stats["tx/tombstoned-comeback"]++
+			return ft
+		}
+	}
+	// the minimum stake is raised just above a jailed (and still staked) validator: when its term is over it must stay out
+	if h.stranded == nil && r.Chance(1, 16) {
+		for _, c := range h.keys {
+			v, ok := h.validator(c.addr)
+			if !ok || v.status != 2 || !v.jailed || h.tombstoned(c.addr) || len(c.subs) > 0 || v.tokens < minStake {
+				continue
+			}
+			ctx := sdk.NewContext(h.app.Store(), abci.Header{}, false, nil)
+			from := h.keyOf(h.app.GK.GetACL(ctx).GetOwner("pos/StakeMinimum"), govOwner["pos/StakeMinimum"])
+			nv := v.tokens + 1 + int64(r.Intn(2))*500000
+			js := []byte(fmt.Sprintf(`"%d"`, nv))
+			ft := txSpec{signer: from, attached: &from, wrongSub: -1}
+			ft.msg = govTypes.MsgChangeParam{FromAddress: from.addr, ParamKey: "pos/StakeMinimum", ParamVal: js}
+			ft.spec = fmt.Sprintf("param:%s:%s:pos:2:%d:%s:1", hx(from.addr), hx([]byte("pos/StakeMinimum")), nv, hx(js))
+			ft.fee = h.app.AK.GetParams(ctx).FeeMultiplier.GetFee(ft.msg).Int64()
+			stats["param/minimum-raised-above-a-jailed-validator"]++
 			return ft
 		}
 	}
@@ -572,6 +667,10 @@ func (h *hist) genTx(pp posTypes.Params, govOwner map[string]key, daoOwner key, 
 		if r.Chance(1, 12) || (h.height <= 2 && r.Chance(1, 2)) { // a module account's raw address as the recipient (early on it may not have been materialised yet)
 			to = key{addr: h.modAddr([]string{auth.FeeCollectorName, posTypes.ModuleName, posTypes.StakedPoolName, govTypes.DAOAccountName}[r.Intn(4)])}
 		}
+		if r.Chance(1, 14) { // a recipient nobody has seen yet whose address is longer (or shorter) than the usual twenty bytes
+			to = key{addr: [][]byte{append(append([]byte{}, to.addr...), byte(r.Intn(256))), to.addr[:19], append(append([]byte{}, to.addr...), to.addr...), {0x51}}[r.Intn(4)]}
+			stats["tx/send-to-an-address-of-unusual-length"]++
+		}
 		bal := h.balance(k.addr)
 		var amt int64
 		switch r.Intn(5) {
@@ -598,7 +697,14 @@ func (h *hist) genTx(pp posTypes.Params, govOwner map[string]key, daoOwner key, 
 		if r.Chance(1, 4) {
 			from = k
 		}
+		if r.Chance(1, 6) { // whoever may CHANGE the gov/daoOwner parameter is not thereby the DAO owner
+			from = h.keyOf(h.app.GK.GetACL(sdk.NewContext(h.app.Store(), abci.Header{}, false, nil)).GetOwner("gov/daoOwner"), govOwner["gov/daoOwner"])
+			stats["tx/dao-by-the-owner-of-the-daoOwner-parameter"]++
+		}
 		to := h.pick()
+		if r.Chance(1, 10) {
+			to = key{addr: append(append([]byte{}, to.addr...), byte(r.Intn(256)))}
+		}
 		if r.Chance(1, 8) { // the DAO pays itself: must be a no-op on its balance
 			to = key{addr: h.modAddr(govTypes.DAOAccountName)}
 		}
@@ -655,7 +761,7 @@ func (h *hist) genTx(pp posTypes.Params, govOwner map[string]key, daoOwner key, 
 			if r.Chance(2, 3) {
 				from = h.keys[r.Intn(3)]
 			}
-			pc.key = []string{"gov/acl/x", "pos/MaxValidators/x", "pos/Nope", "auth/acl"}[r.Intn(4)]
+			pc.key = []string{"gov/acl/x", "pos/MaxValidators/x", "pos/Nope", "auth/acl", "nosuch/x", "bank/denom", "noslash", "/", ""}[r.Intn(9)]
 			grab := govTypes.ACL{}
 			for _, p := range allParamNames {
 				grab.SetOwner(p, from.addr)
@@ -678,6 +784,12 @@ func (h *hist) genTx(pp posTypes.Params, govOwner map[string]key, daoOwner key, 
 		stats["tx/signed-with-the-foreign-key-on-record"]++
 		return t
 	}
+	// a multisignature with one position (or all) damaged: an otherwise valid, properly paid transaction
+	if len(t.signer.subs) > 0 && t.attached != nil && r.Chance(1, 3) {
+		t.wrongSub, t.subMode = r.Intn(len(t.signer.subs)), r.Intn(4)
+		stats[fmt.Sprintf("tx/variation/multisig-slot-damaged/%d", t.subMode)]++
+		return t
+	}
 	// fee / signature variations
 	switch r.Intn(24) {
 	case 0:
@@ -687,7 +799,7 @@ func (h *hist) genTx(pp posTypes.Params, govOwner map[string]key, daoOwner key, 
 		o := h.pick() // right key attached, somebody else signs
 		t.signer = o
 	case 2:
-		t.mutate = 1 + r.Intn(3)
+		t.mutate = 1 + r.Intn(4)
 	case 3:
 		t.attached = nil
 	case 4:
@@ -731,9 +843,13 @@ func (h *hist) genTx(pp posTypes.Params, govOwner map[string]key, daoOwner key, 
 				t.signer, t.attached = mm, &mm
 			}
 		}
-	case 11:
+	case 11, 14:
 		if len(t.signer.subs) > 0 {
-			t.wrongSub = r.Intn(len(t.signer.subs))
+			t.wrongSub, t.subMode = r.Intn(len(t.signer.subs)), r.Intn(4)
+			stats[fmt.Sprintf("tx/variation/multisig-slot-damaged/%d", t.subMode)]++
+		} else {
+			t.sigDamage = 1 + r.Intn(3)
+			stats[fmt.Sprintf("tx/variation/signature-damaged/%d", t.sigDamage)]++
 		}
 	}
 	return t
@@ -799,6 +915,7 @@ func main() {
 	out := flag.String("out", ".", "output directory")
 	flag.Parse()
 	r := rng.New(*seed)
+	inflight = *out + "/app.inflight"
 	fo, _ := os.Create(*out + "/app.ops")
 	fi, _ := os.Create(*out + "/app.impl")
 	wo, wi := bufio.NewWriter(fo), bufio.NewWriter(fi)
@@ -806,6 +923,9 @@ func main() {
 	det = bufio.NewWriter(fd)
 	fx, _ := os.Create(*out + "/app.xi")
 	xi = bufio.NewWriter(fx)
+	fg, _ := os.Create(*out + "/app.gv")
+	gv = bufio.NewWriter(fg)
+	defer func() { gv.Flush(); fg.Close() }()
 	fq, _ := os.Create(*out + "/app.qry")
 	qry = bufio.NewWriter(fq)
 	defer func() { qry.Flush(); fq.Close() }()
@@ -824,6 +944,7 @@ func main() {
 	}
 	js, _ := json.MarshalIndent(stats, "", " ")
 	_ = os.WriteFile(*out+"/app.stats.json", js, 0644)
+	_ = os.Remove(inflight)
 }
 
 func decRaw(num, den int64) sdk.Dec { return sdk.NewDec(num).Quo(sdk.NewDec(den)) }
@@ -878,7 +999,7 @@ func runHistory(r *rng.R, id, maxBlocks int, wo, wi *bufio.Writer) {
 	var accs authTypes.Accounts
 	var vals posTypes.Validators
 	supply := int64(0)
-	otherSupply := int64(0)
+	otherSupply, zzzSupply := int64(0), int64(0)
 	nv := 1 + r.Intn(5)
 	// a quarter of the histories start with a tie in power exactly at the MaxValidators cut-off: every validator has
 	// the same power, stakes differ below the power unit, and one candidate does not fit
@@ -916,6 +1037,13 @@ func runHistory(r *rng.R, id, maxBlocks int, wo, wi *bufio.Writer) {
 			accCoins = append(accCoins, sdk.NewCoin(sdk.DefaultStakeDenom, sdk.NewInt(bal)))
 		}
 		otherSupply += 100000
+		if r.Chance(1, 3) { // a third denomination that sorts AFTER the staking one (an account may hold nothing else)
+			accCoins = append(accCoins, sdk.NewCoin("zzz", sdk.NewInt(7)))
+			zzzSupply += 7
+			if bal == 0 {
+				stats["genesis/account-holding-only-other-denominations"]++
+			}
+		}
 		rec := k.pub
 		if i >= 3 && i < nPlain && h.foreignKey == nil && r.Chance(1, 6) {
 			// the genesis file records ANOTHER key for this account (InitGenesis stores accounts verbatim): whoever
@@ -996,7 +1124,7 @@ func runHistory(r *rng.R, id, maxBlocks int, wo, wi *bufio.Writer) {
 	daoOwner := h.keys[r.Intn(3)]
 	gp := govTypes.Params{ACL: acl, DAOOwner: daoOwner.addr, Upgrade: govTypes.NewUpgrade(0, "")}
 	gen := &simapp.Genesis{
-		Auth: authTypes.GenesisState{Params: ap, Accounts: accs, Supply: feeCoins(supply, otherSupply)},
+		Auth: authTypes.GenesisState{Params: ap, Accounts: accs, Supply: append(feeCoins(supply, otherSupply), zzzCoins(zzzSupply)...)},
 		Pos:  posTypes.GenesisState{Params: pp, PrevStateTotalPower: sdk.ZeroInt(), Validators: vals},
 		Gov:  govTypes.GenesisState{Params: gp, DAOTokens: sdk.NewInt(daoTokens)},
 	}
@@ -1026,7 +1154,9 @@ func runHistory(r *rng.R, id, maxBlocks int, wo, wi *bufio.Writer) {
 	// ---------------- run
 	h.index = simapp.NewTxIndex()
 	defer h.index.Close()
-	h.app = simapp.New(dbm.NewMemDB(), h.index.Addr(), gen)
+	h.genesisWithADuplicate(gen)
+	h.db = dbm.NewMemDB()
+	h.app = simapp.New(h.db, h.index.Addr(), gen)
 	h.now = time.Unix(1600000000, int64(r.Intn(1000000000))).UTC()
 	var initRes abci.ResponseInitChain
 	if try(func() {
@@ -1150,6 +1280,23 @@ func runHistory(r *rng.R, id, maxBlocks int, wo, wi *bufio.Writer) {
 				}
 			}
 		}
+		// a jailed validator stranded below a raised minimum: once its jail term is over it asks to come back (must be refused)
+		if h.stranded != nil {
+			k := *h.stranded
+			if v, ok := h.validator(k.addr); ok && v.jailed && v.status == 2 {
+				if ju, ok := h.jailedUntil(k.addr); ok && ju.Year() < 3000 {
+					if t := ju.Add(time.Duration(1+r.Intn(2000)) * time.Millisecond); t.After(h.now) {
+						h.now = t
+					}
+					ft := txSpec{signer: k, attached: &k, wrongSub: -1}
+					ft.msg = posTypes.MsgUnjail{ValidatorAddr: k.addr}
+					ft.spec = "unjail:" + hx(k.addr)
+					h.forced = append(h.forced, ft)
+					stats["tx/unjail-below-a-raised-minimum"]++
+				}
+			}
+			h.stranded = nil
+		}
 		// LastCommitInfo of BeginBlock(H) are the votes for block H-1, cast by the set of H-1
 		signers := h.sets[h.height-1]
 		h.tm = copySet(h.sets[h.height+1]) // the set the next batch will be applied to
@@ -1264,9 +1411,14 @@ func runHistory(r *rng.R, id, maxBlocks int, wo, wi *bufio.Writer) {
 			if r.Chance(1, 6) {
 				amt = 0
 			}
-			h.app.PK.AwardCoinsTo(ctx, sdk.NewInt(amt), k.addr)
-			h.reqs = append(h.reqs, request{kind: "AW", addr: k.addr, amt: amt, hdr: hdr, resA: "ok"})
-			h.emit(fmt.Sprintf("AW %s %d", hx(k.addr), amt), "ok")
+			to := k.addr
+			if r.Chance(1, 10) { // recipients nobody holds a key for: no address at all, a module's own address, a longer address
+				to = []sdk.Address{{}, h.modAddr(posTypes.StakedPoolName), h.modAddr(govTypes.DAOAccountName), append(append(sdk.Address{}, k.addr...), 0x01)}[r.Intn(4)]
+				stats["award/unusual-recipient"]++
+			}
+			h.app.PK.AwardCoinsTo(ctx, sdk.NewInt(amt), to)
+			h.reqs = append(h.reqs, request{kind: "AW", addr: to, amt: amt, hdr: hdr, resA: "ok"})
+			h.emit(fmt.Sprintf("AW %s %d", hx(to), amt), "ok")
 		}
 		if r.Chance(1, 4) {
 			// burn an EXISTING validator (a missing one panics the next BeginBlock)
@@ -1307,6 +1459,11 @@ func runHistory(r *rng.R, id, maxBlocks int, wo, wi *bufio.Writer) {
 				t.spec = strings.SplitN(strings.TrimPrefix(op, "TX "), " ", 2)[0]
 				stats[fmt.Sprintf("tx/replayed/earlier-code-%d", old.res.Code)]++
 			}
+			// should the process end inside this call (os.Exit cannot be recovered from), the observation files are complete up
+			// to here and app.inflight names the transaction
+			h.wo.Flush()
+			h.wi.Flush()
+			_ = os.WriteFile(inflight, []byte(fmt.Sprintf("%d\n%s\n", h.id, op)), 0644)
 			res := h.app.DeliverTx(abci.RequestDeliverTx{Tx: bz})
 			if !strings.Contains(op, " dup=1") {
 				h.blockTxs = append(h.blockTxs, sentTx{bz, op, res})
@@ -1346,8 +1503,14 @@ func runHistory(r *rng.R, id, maxBlocks int, wo, wi *bufio.Writer) {
 				// the minimum has just changed: a staked validator that is now below it asks to begin unstaking (must be
 				// refused without a trace, or handled, but never half-way)
 				nm := h.app.PK.GetParams(sdk.NewContext(h.app.Store(), abci.Header{}, false, nil)).StakeMinimum
+				for i, c := range h.keys {
+					if v, ok := h.validator(c.addr); ok && v.status == 2 && v.jailed && v.tokens < nm && len(c.subs) == 0 && !h.tombstoned(c.addr) {
+						h.stranded = &h.keys[i]
+						stats["param/jailed-validator-stranded-below-the-minimum"]++
+					}
+				}
 				for _, c := range h.keys {
-					if v, ok := h.validator(c.addr); ok && v.status == 2 && v.tokens < nm && len(c.subs) == 0 {
+					if v, ok := h.validator(c.addr); ok && v.status == 2 && v.tokens < nm && len(c.subs) == 0 && (h.stranded == nil || !h.stranded.addr.Equals(c.addr)) {
 						cc := c
 						ft := txSpec{signer: cc, attached: &cc, wrongSub: -1}
 						ft.msg = posTypes.MsgBeginUnstake{Address: c.addr}
@@ -1359,6 +1522,38 @@ func runHistory(r *rng.R, id, maxBlocks int, wo, wi *bufio.Writer) {
 				}
 			}
 			h.emit(op, rs)
+		}
+		// ---- governance messages handed to the module's handler directly (no transaction around them, so the sender need not
+		// hold a key): the owner itself, a stranger, and addresses that differ from the owner's in one letter's case or in one
+		// byte that is no valid text - nobody but the very owner may pass
+		if r.Chance(1, 5) {
+			ctx := sdk.NewContext(h.app.Store(), hdr, false, log.NewNopLogger())
+			own := h.app.GK.GetACL(ctx).GetOwner("pos/MaxValidators")
+			var m sdk.Msg
+			var spec string
+			from := nearMiss(r, own)
+			if r.Chance(1, 3) {
+				dao := h.app.GK.GetDAOOwner(ctx)
+				from = nearMiss(r, dao)
+				to := h.pick()
+				amt := int64(1 + r.Intn(1000))
+				m = govTypes.MsgDAOTransfer{FromAddress: from, ToAddress: to.addr, Amount: sdk.NewInt(amt), Action: govTypes.DAOTransferString}
+				spec = fmt.Sprintf("dao:%s:%s:%d:1", hx(from), hx(to.addr), amt)
+			} else {
+				nv := int64(1 + r.Intn(6))
+				js := []byte(fmt.Sprintf(`"%d"`, nv))
+				m = govTypes.MsgChangeParam{FromAddress: from, ParamKey: "pos/MaxValidators", ParamVal: js}
+				spec = fmt.Sprintf("param:%s:%s:pos:1:%d:%s:1", hx(from), hx([]byte("pos/MaxValidators")), nv, hx(js))
+			}
+			if from != nil {
+				res := "err"
+				var out sdk.Result
+				if msg := tryMsg(func() { out = gov.NewHandler(h.app.GK)(ctx, m) }); msg == "" && out.IsOK() {
+					res = "ok"
+				}
+				h.reqs = append(h.reqs, request{kind: "HM", msg: m, hdr: hdr, resA: res})
+				h.emit("HM "+spec+" fee=0 memo=0 att=- multi=0 by=- mut=0 sigempty=0 dup=0", res)
+			}
 		}
 		// ---- end block / commit
 		var eb abci.ResponseEndBlock
@@ -1386,6 +1581,34 @@ func runHistory(r *rng.R, id, maxBlocks int, wo, wi *bufio.Writer) {
 		h.blockTxs = nil
 		committed = true
 		h.emit("CM", "ok")
+		// the process is stopped and started again from its database: everything observed from here on comes from what was
+		// persisted (the model knows no restarts: to it this is the identity)
+		if r.Chance(1, 8) {
+			if m := tryMsg(func() { h.app = simapp.New(h.db, h.index.Addr(), h.gen) }); m != "" {
+				h.emitDead("RS")
+				break
+			}
+			h.reqs = append(h.reqs, request{kind: "RS"})
+			h.emit("RS", "ok")
+		}
+		// C14 through BaseApp: what a store query (no proof) returns right after a Commit - at the default height and at the
+		// height just committed - is what the store holds; the first block included
+		if qry != nil && (h.height == 1 || r.Chance(1, 5)) {
+			st := h.app.Store().GetKVStore(h.app.Keys[posTypes.StoreKey])
+			for _, key := range [][]byte{{0x01}, posTypes.KeyForValByAllVals(h.keys[0].addr), posTypes.KeyForValByAllVals(h.keys[len(h.keys)/2].addr)} {
+				direct := st.Get(key)
+				for _, hq := range []int64{0, h.height} {
+					var q abci.ResponseQuery
+					verdict := "same"
+					if m := tryMsg(func() { q = h.app.Query(abci.RequestQuery{Path: "/store/pos/key", Data: key, Height: hq}) }); m != "" {
+						verdict = "DIFF panic " + m
+					} else if q.Code != 0 || !bytes.Equal(q.Value, direct) || q.Height != h.height {
+						verdict = fmt.Sprintf("DIFF code=%d height=%d value=%s stored=%s log=%.80s", q.Code, q.Height, hx(q.Value), hx(direct), strings.ReplaceAll(q.Log, " ", "_"))
+					}
+					fmt.Fprintf(qry, "%d after-commit last=%d asked=%d key=%s %s\n", h.id, h.height, hq, hx(key), verdict)
+				}
+			}
+		}
 	}
 	_ = big.NewInt
 	fmt.Fprintln(wo, "E")
@@ -1418,7 +1641,60 @@ func runHistory(r *rng.R, id, maxBlocks int, wo, wi *bufio.Writer) {
 	}
 }
 
-var det, xi, qry *bufio.Writer
+var det, xi, qry, gv *bufio.Writer
+
+// C05 at InitChain: a genesis file that lists one validator key twice (with another stake, at any position, the last one
+// included) must be refused by the module's genesis validation - started from it, InitChain hands Tendermint one key twice
+func (h *hist) genesisWithADuplicate(gen *simapp.Genesis) {
+	vals := gen.Pos.Validators
+	if gv == nil || len(vals) == 0 {
+		return
+	}
+	r := h.r
+	dup := vals[r.Intn(len(vals))]
+	dup.StakedTokens = dup.StakedTokens.Add(sdk.NewInt(int64(1+r.Intn(3)) * 1000000))
+	at := r.Intn(len(vals) + 1)
+	if r.Chance(1, 3) {
+		at = len(vals)
+	}
+	bad := gen.Pos
+	bad.Validators = append(append(append([]posTypes.Validator{}, vals[:at]...), dup), vals[at:]...)
+	for i := range bad.Validators { // nothing else to object to: every stake above the minimum
+		if bad.Validators[i].StakedTokens.LTE(sdk.NewInt(bad.Params.StakeMinimum)) {
+			bad.Validators[i].StakedTokens = sdk.NewInt(bad.Params.StakeMinimum + 1 + int64(i))
+		}
+	}
+	// ... and shipped parameters; the same file without the repeated entry is the control: it must be accepted
+	bad.Params = posTypes.DefaultParams()
+	bad.Params.StakeMinimum = gen.Pos.Params.StakeMinimum
+	ctl := bad
+	ctl.Validators = append(append([]posTypes.Validator{}, bad.Validators[:at]...), bad.Validators[at+1:]...)
+	if err := pos.ValidateGenesis(ctl); err != nil {
+		fmt.Fprintf(gv, "%d duplicate-of-a-listed-validator at=%d of=%d control-refused %s\n", h.id, at, len(vals)+1, strings.ReplaceAll(err.Error(), " ", "_"))
+		return
+	}
+	verdict := "refused"
+	if m := tryMsg(func() {
+		if err := pos.ValidateGenesis(bad); err == nil {
+			verdict = "ACCEPTED"
+		}
+	}); m != "" {
+		verdict = "refused-by-panic"
+	}
+	if verdict == "ACCEPTED" { // what InitChain then returns
+		g2 := *gen
+		g2.Pos = bad
+		app := simapp.New(dbm.NewMemDB(), "tcp://127.0.0.1:1", &g2)
+		var res abci.ResponseInitChain
+		if m := tryMsg(func() { res = app.InitChain(abci.RequestInitChain{ChainId: simapp.ChainID, Time: time.Unix(1600000000, 0).UTC()}) }); m != "" {
+			verdict += " InitChain-panics"
+		} else {
+			verdict += " InitChain-returns=" + strings.ReplaceAll(updatesString(res.Validators), " ", "_")
+		}
+	}
+	fmt.Fprintf(gv, "%d duplicate-of-a-listed-validator at=%d of=%d %s\n", h.id, at, len(vals)+1, verdict)
+}
+var inflight string
 
 func tryMsg(f func()) (msg string) {
 	defer func() {
@@ -1697,6 +1973,13 @@ func (h *hist) replay(variant string, cp *abci.ConsensusParams, ref []string) (s
 			ctx := sdk.NewContext(app.Store(), q.hdr, false, log.NewNopLogger())
 			app.PK.AwardCoinsTo(ctx, sdk.NewInt(q.amt), q.addr)
 			got = "ok"
+		case "HM":
+			ctx := sdk.NewContext(app.Store(), q.hdr, false, log.NewNopLogger())
+			got = "err"
+			var out sdk.Result
+			if msg := tryMsg(func() { out = gov.NewHandler(app.GK)(ctx, q.msg) }); msg == "" && out.IsOK() {
+				got = "ok"
+			}
 		case "BU":
 			ctx := sdk.NewContext(app.Store(), q.hdr, false, log.NewNopLogger())
 			if try(func() { app.PK.BurnValidator(ctx, q.addr, q.sev) }) {
